@@ -361,10 +361,11 @@ type e2eCase struct {
 	buf        int
 	seg        string
 	edit       string
+	rcw        bool // the receiver half-closes (CloseWrite) before the attacked stream arrives
 }
 
 func (c e2eCase) key() string {
-	return fmt.Sprintf("e2e suite=%s dir=%s recs=%s buf=%d seg=%s edit=%s", c.suite, c.dir, strings.Join(c.recs, ","), c.buf, c.seg, c.edit)
+	return fmt.Sprintf("e2e suite=%s dir=%s recs=%s buf=%d seg=%s rcw=%s edit=%s", c.suite, c.dir, strings.Join(c.recs, ","), c.buf, c.seg, b01(c.rcw), c.edit)
 }
 
 func errEnum(err error) string {
@@ -622,6 +623,15 @@ func runE2E(c e2eCase) (string, string) {
 			return avail
 		}
 	}
+	if c.rcw {
+		if err := rcv.CloseWrite(); err != nil {
+			return desc, "rcwerr=" + strings.ReplaceAll(err.Error(), " ", "_")
+		}
+		// the sender takes the receiver's close_notify off the wire first
+		if typ, data, err := tlcp.VerifRxNextRecord(snd); err != nil || typ != 21 || len(data) != 2 || data[1] != 0 {
+			return desc, "rcwerr=no_close_notify"
+		}
+	}
 	sentBefore := len(rcvEnd.Sent)
 	sndEnd.Inject(stream)
 	sndEnd.CloseWriteRaw()
@@ -678,6 +688,10 @@ func runE2E(c e2eCase) (string, string) {
 	return desc, obs
 }
 
+func mk(suite, dir string, recs []string, buf int, seg, edit string) e2eCase {
+	return e2eCase{suite: suite, dir: dir, recs: recs, buf: buf, seg: seg, edit: edit}
+}
+
 func parseE2E(desc string) e2eCase {
 	var c e2eCase
 	c.suite, _ = hx.KV(desc, "suite")
@@ -689,6 +703,8 @@ func parseE2E(desc string) e2eCase {
 	c.buf = hx.KVInt(desc, "buf")
 	c.seg, _ = hx.KV(desc, "seg")
 	c.edit, _ = hx.KV(desc, "edit")
+	r, _ := hx.KV(desc, "rcw")
+	c.rcw = r == "1"
 	return c
 }
 
@@ -709,9 +725,9 @@ func phaseE2E(o hx.Opts, r *hx.Rand) {
 	thorough := o.Tier == "thorough"
 	// witnesses first: a plaintext close_notify injected, a replay, the cut at a boundary
 	for _, su := range []string{"gcm", "cbc"} {
-		emitE2E(e2eCase{su, "c2s", []string{"a3", "a5", "c"}, 100, "all", "inj.1.21.p.2"})
-		emitE2E(e2eCase{su, "c2s", []string{"a3", "a5", "c"}, 100, "all", "dup.0"})
-		emitE2E(e2eCase{su, "s2c", []string{"a3", "a5", "c"}, 2, "rec", "cut.2.0"})
+		emitE2E(mk(su, "c2s", []string{"a3", "a5", "c"}, 100, "all", "inj.1.21.p.2"))
+		emitE2E(mk(su, "c2s", []string{"a3", "a5", "c"}, 100, "all", "dup.0"))
+		emitE2E(mk(su, "s2c", []string{"a3", "a5", "c"}, 2, "rec", "cut.2.0"))
 	}
 	base := []string{"a5", "a17", "a1", "c"}
 	for _, su := range []string{"gcm", "cbc"} {
@@ -724,7 +740,7 @@ func phaseE2E(o hx.Opts, r *hx.Rand) {
 			}
 			for _, seg := range []string{"all", "rec"} {
 				for _, buf := range []int{1, 3, 100000} {
-					emitE2E(e2eCase{su, dir, base, buf, seg, "none"})
+					emitE2E(mk(su, dir, base, buf, seg, "none"))
 				}
 			}
 			for _, seg := range segs {
@@ -752,12 +768,12 @@ func phaseE2E(o hx.Opts, r *hx.Rand) {
 							}
 							seen[p] = true
 							for _, m := range masks {
-								emitE2E(e2eCase{su, dir, base, buf, seg, fmt.Sprintf("flip.%d.%d.0x%02x", rec, p, m)})
+								emitE2E(mk(su, dir, base, buf, seg, fmt.Sprintf("flip.%d.%d.0x%02x", rec, p, m)))
 							}
 						}
-						emitE2E(e2eCase{su, dir, base, buf, seg, fmt.Sprintf("drop.%d", rec)})
-						emitE2E(e2eCase{su, dir, base, buf, seg, fmt.Sprintf("dup.%d", rec)})
-						emitE2E(e2eCase{su, dir, base, buf, seg, fmt.Sprintf("swap.%d", rec)})
+						emitE2E(mk(su, dir, base, buf, seg, fmt.Sprintf("drop.%d", rec)))
+						emitE2E(mk(su, dir, base, buf, seg, fmt.Sprintf("dup.%d", rec)))
+						emitE2E(mk(su, dir, base, buf, seg, fmt.Sprintf("swap.%d", rec)))
 						// cuts: at the boundary, inside the header, at the end of the header, inside the body
 						offs := []int{0, 1, 4, 5, 6, L / 2, L - 1}
 						if thorough || rec >= len(base)-2 {
@@ -767,13 +783,13 @@ func phaseE2E(o hx.Opts, r *hx.Rand) {
 							}
 						}
 						for _, off := range offs {
-							emitE2E(e2eCase{su, dir, base, buf, seg, fmt.Sprintf("cut.%d.%d", rec, off)})
+							emitE2E(mk(su, dir, base, buf, seg, fmt.Sprintf("cut.%d.%d", rec, off)))
 						}
 						for _, nl := range []int{0, 1, L - 6, L - 4, 18432, 18433, 65535} {
-							emitE2E(e2eCase{su, dir, base, buf, seg, fmt.Sprintf("setlen.%d.%d", rec, nl)})
+							emitE2E(mk(su, dir, base, buf, seg, fmt.Sprintf("setlen.%d.%d", rec, nl)))
 						}
 					}
-					emitE2E(e2eCase{su, dir, base, buf, seg, fmt.Sprintf("cut.%d.0", len(base))})
+					emitE2E(mk(su, dir, base, buf, seg, fmt.Sprintf("cut.%d.0", len(base))))
 					// injected plaintext / garbage records of every content type
 					for _, at := range []int{0, 1, len(base) - 1, len(base)} {
 						for _, typ := range []int{20, 21, 22, 23, 24, 0x80, 0, 255} {
@@ -781,10 +797,27 @@ func phaseE2E(o hx.Opts, r *hx.Rand) {
 								if !thorough && at == 1 && kl != "p.2" {
 									continue
 								}
-								emitE2E(e2eCase{su, dir, base, buf, seg, fmt.Sprintf("inj.%d.%d.%s", at, typ, kl)})
+								emitE2E(mk(su, dir, base, buf, seg, fmt.Sprintf("inj.%d.%d.%s", at, typ, kl)))
 							}
 						}
 					}
+				}
+			}
+		}
+	}
+	// the receiver has half-closed (CloseWrite) before the attack: errors must still be reported and latched,
+	// the alert must still go out — one edit of every class, both suites, both directions, both segmentations
+	for _, su := range []string{"gcm", "cbc"} {
+		for _, dir := range []string{"c2s", "s2c"} {
+			L1 := wireLen(su, 17)
+			for _, ed := range []string{"none", "flip.1.0.0x01", "flip.1.1.0x01", "flip.1.4.0x01", "flip.1.9.0x80",
+				fmt.Sprintf("flip.1.%d.0x01", L1/2+5), fmt.Sprintf("flip.1.%d.0x01", L1-1), "flip.0.30.0x04",
+				"setlen.1.18433", "setlen.1.3", "drop.1", "dup.0", "dup.1", "swap.0", "swap.1", "cut.1.3", "cut.1.9", "cut.2.0",
+				"inj.0.23.p.2", "inj.1.23.p.2", "inj.1.21.p.2", "inj.2.22.r.40", "inj.1.20.p.1", "inj.3.24.z.48"} {
+				for _, seg := range []string{"all", "rec"} {
+					c := mk(su, dir, base, hx.Pick(r, []int{1, 100}), seg, ed)
+					c.rcw = true
+					emitE2E(c)
 				}
 			}
 		}
@@ -807,9 +840,9 @@ func phaseE2E(o hx.Opts, r *hx.Rand) {
 	for _, su := range []string{"gcm", "cbc"} {
 		for _, recs := range special {
 			for _, seg := range []string{"all", "rec"} {
-				emitE2E(e2eCase{su, "c2s", recs, 7, seg, "none"})
+				emitE2E(mk(su, "c2s", recs, 7, seg, "none"))
 			}
-			emitE2E(e2eCase{su, "s2c", recs, 100000, "all", "swap.0"})
+			emitE2E(mk(su, "s2c", recs, 100000, "all", "swap.0"))
 		}
 	}
 	// random attacks
@@ -858,7 +891,9 @@ func phaseE2E(o hx.Opts, r *hx.Rand) {
 		default:
 			edit = "none"
 		}
-		emitE2E(e2eCase{su, hx.Pick(r, []string{"c2s", "s2c"}), recs, hx.Pick(r, []int{1, 2, 5, 64, 100000}), hx.Pick(r, []string{"all", "rec"}), edit})
+		rc := mk(su, hx.Pick(r, []string{"c2s", "s2c"}), recs, hx.Pick(r, []int{1, 2, 5, 64, 100000}), hx.Pick(r, []string{"all", "rec"}), edit)
+		rc.rcw = r.Chance(35)
+		emitE2E(rc)
 	}
 }
 
